@@ -1,5 +1,5 @@
 CONSTANTS
-  Places = {"second_root", "third_root", "deep6", "dir_tests", "mod_rs", "main_rs", "build_rs", "space_name", "dotted_name", "nonascii_dir", "upper_dir", "no_src", "symlink_file", "sibling_prefix_root", "prefix_crate_dirs", "ann_abs_path_alone", "ann_spaced_alone", "ann_path_alone", "bad_item_arrives_first", "bad_item_arrives_middle", "bad_item_arrives_last", "second_run"}
+  Places = {"second_root", "third_root", "deep6", "dir_tests", "mod_rs", "main_rs", "build_rs", "space_name", "dotted_name", "nonascii_dir", "upper_dir", "no_src", "symlink_file", "sibling_prefix_root", "prefix_crate_dirs", "ann_abs_path_alone", "ann_spaced_alone", "ann_path_alone", "bad_item_arrives_first", "bad_item_arrives_middle", "bad_item_arrives_last", "bad_vfield_item", "bad_payload_item", "bad_alias_item", "second_run"}
   Modes = {"single", "multi"}
   Langs = {"typescript", "kotlin"}
 INIT Init
